@@ -50,7 +50,7 @@ func c11Snapshot(r *core.Run, p *core.Program) {
 	const rule = "R-C11-snapshot"
 	// an aborted snapshot is never installed, whichever of the writer's two receive sites gets the notice
 	if sv := p.Func("lib/utxo.(*UnspentDB).save"); sv != nil {
-		for _, f := range sv.AnonFuncs {
+		for _, f := range an.WithClosures(sv)[1:] {
 			if len(an.CallsTo(f, false, "os.Create")) > 0 {
 				snapshotAbortNotice(r, p, rule, f)
 			}
@@ -941,7 +941,7 @@ func c11WaitOnEveryReturn(r *core.Run, p *core.Program) {
 	}
 	// the deferred closure that waits, and the flag it tests
 	var flag *ssa.Alloc
-	for _, cf := range ct.AnonFuncs {
+	for _, cf := range an.WithClosures(ct)[1:] {
 		if len(an.CallsTo(cf, false, "(*sync.WaitGroup).Wait")) == 0 {
 			continue
 		}
@@ -1007,22 +1007,19 @@ func c11WaitOnEveryReturn(r *core.Run, p *core.Program) {
 			}
 		}
 	}
-	// set in the same block as every verifier start
+	// set after every verifier start: no way from a start to a return of the function without the flag
+	// having been set (the value of a "something was started" boolean is followed along the path)
 	okSet := true
+	isSet := func(i ssa.Instruction) bool {
+		st, ok := i.(*ssa.Store)
+		return ok && st.Addr == ssa.Value(flag) && an.Expr(st.Val) == "true"
+	}
 	for _, b := range ct.Blocks {
 		for _, ins := range b.Instrs {
 			if g, ok := ins.(*ssa.Go); ok {
-				if mc, ok := g.Call.Value.(*ssa.MakeClosure); ok {
-					if cf, ok := mc.Fn.(*ssa.Function); ok && len(an.CallsTo(cf, false, "lib/script.VerifyTxScript")) > 0 {
-						set := false
-						for _, x := range b.Instrs {
-							if st, ok := x.(*ssa.Store); ok && st.Addr == ssa.Value(flag) && an.Expr(st.Val) == "true" {
-								set = true
-							}
-						}
-						if !set {
-							okSet = false
-						}
+				if w := c11GoWorker(g); w != nil && len(an.CallsTo(w, false, "lib/script.VerifyTxScript")) > 0 {
+					if an.MustPassBeforeReturn(g, isSet) != "" {
+						okSet = false
 					}
 				}
 			}
@@ -1189,6 +1186,13 @@ func c11CapturedReassigned(p *core.Program, g *ssa.Go, worker *ssa.Function, wai
 				} else {
 					after = c11Reach(g.Block(), st.Block())
 				}
+				// a cell that is allocated again on the way from the go statement to the store (a variable of
+				// the loop body, e.g. the parameters of a helper folded into the loop) is a new variable each time
+				if al, isAl := cell.(*ssa.Alloc); after && isAl && al.Block() != nil {
+					if !c11ReachAvoiding(g, st, al) {
+						after = false
+					}
+				}
 				if !after {
 					continue
 				}
@@ -1305,4 +1309,51 @@ func c11DoneIsLast(r *core.Run, p *core.Program, rule string) {
 		})
 	}
 	r.Check(n >= 3, rule, "done-is-last/sites", "-", fmt.Sprintf("%d explicit Done calls in workers", n), fmt.Sprintf("only %d explicit Done calls in workers found", n))
+}
+
+// c11ReachAvoiding: a path from just after the go statement to the store that does not execute the
+// allocation of the cell again.
+func c11ReachAvoiding(g *ssa.Go, st *ssa.Store, al *ssa.Alloc) bool {
+	// scan a block from index 'from' up to the store; reports (reached store, hit alloc)
+	scan := func(b *ssa.BasicBlock, from int) (bool, bool) {
+		for _, ins := range b.Instrs[from:] {
+			if ins == ssa.Instruction(al) {
+				return false, true
+			}
+			if ins == ssa.Instruction(st) {
+				return true, false
+			}
+		}
+		return false, false
+	}
+	start := 0
+	for i, ins := range g.Block().Instrs {
+		if ins == ssa.Instruction(g) {
+			start = i + 1
+		}
+	}
+	if hit, blocked := scan(g.Block(), start); hit {
+		return true
+	} else if blocked {
+		return false
+	}
+	seen := map[*ssa.BasicBlock]bool{}
+	work := append([]*ssa.BasicBlock{}, g.Block().Succs...)
+	for len(work) > 0 {
+		b := work[len(work)-1]
+		work = work[:len(work)-1]
+		if seen[b] {
+			continue
+		}
+		seen[b] = true
+		hit, blocked := scan(b, 0)
+		if hit {
+			return true
+		}
+		if blocked {
+			continue
+		}
+		work = append(work, b.Succs...)
+	}
+	return false
 }
